@@ -16,6 +16,21 @@ From CM Require Import Gen.Consts.   (* ocsp_fresh_divisor, ocsp_short_lifetime:
 Import ListNotations.
 Open Scope Z_scope.
 
+(** * The shape of the code this model follows
+
+    One boolean per comparison (with its direction), guard and statement order that the
+    definitions below hard-code, computed from the source of /repo by the translator on every run
+    (harness/cmd/consts/c14.go). [Proofs.code_shape] proves the conjunction, so the development
+    stops checking as soon as the code loses this shape. *)
+Definition ocsp_code_shape : bool :=
+  ocsp_tie_serial && ocsp_tie_this_after_now && ocsp_tie_next_not_before && ocsp_tie_rc_is_delegate &&
+  ocsp_tie_rc_validity && ocsp_tie_rc_eku && ocsp_tie_disabled && ocsp_tie_chain_issuer &&
+  ocsp_tie_reuse_cond && ocsp_tie_ask_cond && ocsp_tie_check_all && ocsp_tie_overlong &&
+  ocsp_tie_good_only && ocsp_tie_persist_new_only && ocsp_tie_order && ocsp_tie_fresh_cap &&
+  ocsp_tie_fresh_before && ocsp_tie_tick_skip_expired && ocsp_tie_tick_skip_fresh &&
+  ocsp_tie_tick_writeback && ocsp_tie_force_renew && ocsp_tie_hs_due && ocsp_tie_hs_renew &&
+  ocsp_tie_manage_renew && ocsp_tie_renew_evict.
+
 (** * Data *)
 
 Inductive status := Good | Revoked | Unknown.
@@ -23,14 +38,26 @@ Inductive status := Good | Revoked | Unknown.
 Definition status_eqb (a b : status) : bool :=
   match a, b with Good, Good | Revoked, Revoked | Unknown, Unknown => true | _, _ => false end.
 
+(** the certificate embedded in a response (RFC 6960 4.2.2.2): the responder's own *)
+Record rcert := RC {
+  rc_na : Z;               (* NotAfter *)
+  rc_nb : Z;               (* NotBefore *)
+  rc_eku : bool;           (* ExtKeyUsage contains id-kp-OCSPSigning *)
+  rc_issuer : bool         (* it is the leaf's issuer itself (leaf.CheckSignatureFrom accepts it) *)
+}.
+
 Record resp := Resp {
   r_status : status;
   r_serial : Z;            (* CertID.SerialNumber of the single response *)
   r_this : Z;              (* ThisUpdate *)
   r_next : Z;              (* NextUpdate; [zero_time] when absent *)
-  r_rcna : option Z;       (* NotAfter of an embedded (delegated) responder certificate *)
-  r_sig : bool             (* ParseResponse(bytes, issuer) accepts these bytes *)
+  r_rc : option rcert;     (* embedded responder certificate, if any *)
+  r_sig : bool             (* ParseResponse(bytes, issuer) accepts these bytes: signed by the
+                              issuer, or by the embedded certificate which the issuer signed *)
 }.
+
+Definition r_rcna (r : resp) : option Z :=
+  match r_rc r with Some rc => Some (rc_na rc) | None => None end.
 
 Record blob := Blob { b_id : Z; b_parse : option resp }.
 
@@ -73,8 +100,16 @@ Definition fresh (now : Z) (r : resp) : bool := now <? refresh_time r.
     without NextUpdate does not expire *)
 Definition current (now : Z) (r : resp) : bool :=
   (r_this r <=? now) && ((r_next r =? zero_time) || (now <? r_next r)).
+(** ... and, when signed by a delegated responder (an embedded certificate that is not the
+    issuer itself), that certificate is valid now ([!now.Before(NotBefore) && !now.After(NotAfter)])
+    and was issued for signing OCSP responses *)
+Definition responder_ok (now : Z) (r : resp) : bool :=
+  match r_rc r with
+  | None => true
+  | Some rc => rc_issuer rc || ((rc_nb rc <=? now) && (now <=? rc_na rc) && rc_eku rc)
+  end.
 Definition valid_for (c : cert) (now : Z) (r : resp) : bool :=
-  (r_serial r =? c_serial c) && current now r.
+  (r_serial r =? c_serial c) && current now r && responder_ok now r.
 
 (** [ocsp.ParseResponse(bytes, issuer)] *)
 Definition parse_issuer (b : blob) : option resp :=
@@ -83,10 +118,10 @@ Definition parse_issuer (b : blob) : option resp :=
   | None => None
   end.
 
-(** what [stapleOCSP] makes of a persisted staple: verified against the issuer when the chain
-    has it, merely parsed otherwise *)
+(** what [stapleOCSP] makes of a persisted staple: verified against the issuer, which must be in
+    the chain; without it the persisted staple is not looked at *)
 Definition stored_parse (c : cert) (b : blob) : option resp :=
-  if c_chain c then parse_issuer b else b_parse b.
+  if c_chain c then parse_issuer b else None.
 
 (** * One call of [stapleOCSP] *)
 
@@ -155,7 +190,7 @@ Definition ask (c : cert) (cs : cstate) (st : option blob) (ops : list sop) (e :
 Definition staple (disabled : bool) (c : cert) (cs : cstate) (st : option blob) (e : env)
     (now : Z) : result :=
   if disabled then Res cs st false false false [] false else
-  match (if e_load_err e then None else st) with
+  match (if e_load_err e || negb (c_chain c) then None else st) with
   | Some b =>
       match stored_parse c b with
       | Some r =>
@@ -231,7 +266,7 @@ Definition do_renew (disabled : bool) (now : Z) (rn : renew_outcome) (st : store
   end.
 
 (** one certificate's share of [updateOCSPStaples] *)
-Definition maintain_one (disabled : bool) (now : Z) (e : env) (rn : renew_outcome) (en : entry)
+Definition tick_one (disabled : bool) (now : Z) (e : env) (rn : renew_outcome) (en : entry)
     (st : store) : list entry * store * list call :=
   let c := en_cert en in
   if c_expiry c <? now then ([en], st, [])                      (* cert.Expired() *)
@@ -262,23 +297,85 @@ Definition maintain_one (disabled : bool) (now : Z) (e : env) (rn : renew_outcom
         then let '(l, s2, cl2) := do_renew disabled now rn st' in (l, s2, cl ++ cl2)
         else ([en1], st', cl).
 
-Fixpoint maintain (disabled : bool) (now : Z) (envs : Z -> env) (rns : Z -> renew_outcome)
-    (l : list entry) (st : store) : list entry * store * list call :=
+(** the same certificate met by a handshake when certificates are managed on demand
+    ([handshakeMaintenance], reached from [GetCertificate] for a managed certificate in the cache):
+    the status is refreshed only if one is recorded and no longer fresh; whatever [stapleOCSP]
+    left in its copy of the certificate is written back to the cache, error or not; a Revoked
+    status (recorded or just learned) leads to [forceRenew]. (A handshake on an expired
+    certificate renews it first: not part of this model, C05 / C13.) *)
+Definition hs_one (disabled : bool) (now : Z) (e : env) (rn : renew_outcome) (en : entry)
+    (st : store) : list entry * store * list call :=
+  let c := en_cert en in
+  if c_expiry c <? now then ([en], st, [])
+  else if negb (en_managed en) then ([en], st, [])
+  else
+    let due := match cs_ocsp (en_cs en) with Some r => negb (fresh now r) | None => false end in
+    if due then
+      let res := staple disabled c (en_cs en) (sget (c_id c) st) e now in
+      let st' := sset (c_id c) (res_store res) st in
+      let cl := [call_of c res] in
+      let en1 := Entry c (en_managed en) (res_cs res) (if res_attached res then now else en_att en) in
+      if force_renew (en_managed en) (cs_ocsp (res_cs res))
+      then let '(l, s2, cl2) := do_renew disabled now rn st' in (l, s2, cl ++ cl2)
+      else ([en1], st', cl)
+    else if force_renew (en_managed en) (cs_ocsp (en_cs en)) then do_renew disabled now rn st
+    else ([en], st, []).
+
+(** [manageOne] right after it has cached the certificate from storage: a Revoked status is
+    acted upon at once *)
+Definition manage_one (disabled : bool) (now : Z) (rn : renew_outcome) (en : entry) (st : store)
+    : list entry * store * list call :=
+  if c_expiry (en_cert en) <? now then ([en], st, [])
+  else if force_renew (en_managed en) (cs_ocsp (en_cs en)) then do_renew disabled now rn st
+  else ([en], st, []).
+
+(** what the handshake that runs [hs_one] hands to the TLS stack: its copy of the certificate
+    after the refresh, if there was one (also when that certificate is then replaced) *)
+Definition hs_returned (disabled : bool) (now : Z) (e : env) (en : entry) (st : store) : cstate :=
+  let c := en_cert en in
+  if (c_expiry c <? now) || negb (en_managed en) then en_cs en
+  else match cs_ocsp (en_cs en) with
+       | Some r => if fresh now r then en_cs en
+                   else res_cs (staple disabled c (en_cs en) (sget (c_id c) st) e now)
+       | None => en_cs en
+       end.
+
+(** who looks at a cached certificate in one pass: the maintenance tick, a handshake, manageOne,
+    or nobody *)
+Inductive mkind := KTick | KHandshake | KManage | KSkip.
+
+Definition maintain_one (k : mkind) (disabled : bool) (now : Z) (e : env) (rn : renew_outcome)
+    (en : entry) (st : store) : list entry * store * list call :=
+  match k with
+  | KTick => tick_one disabled now e rn en st
+  | KHandshake => hs_one disabled now e rn en st
+  | KManage => manage_one disabled now rn en st
+  | KSkip => ([en], st, [])
+  end.
+
+Fixpoint maintain (ks : Z -> mkind) (disabled : bool) (now : Z) (envs : Z -> env)
+    (rns : Z -> renew_outcome) (l : list entry) (st : store) : list entry * store * list call :=
   match l with
   | [] => ([], st, [])
   | en :: r =>
       let id := c_id (en_cert en) in
-      let '(l1, st1, cl1) := maintain_one disabled now (envs id) (rns id) en st in
-      let '(l2, st2, cl2) := maintain disabled now envs rns r st1 in
+      let '(l1, st1, cl1) := maintain_one (ks id) disabled now (envs id) (rns id) en st in
+      let '(l2, st2, cl2) := maintain ks disabled now envs rns r st1 in
       (l1 ++ l2, st2, cl1 ++ cl2)
   end.
+
+(** the periodic pass looks at every certificate *)
+Definition tick : Z -> mkind := fun _ => KTick.
 
 Inductive op :=
 | OTamper (cid : Z) (v : option blob)        (* anything else writes/removes a persisted staple *)
 | OCache (c : cert) (managed disabled : bool) (e : env) (now : Z)
       (* CacheUnmanagedCertificatePEMBytes / CacheManagedCertificate *)
-| OMaintain (disabled : bool) (now : Z) (envs : Z -> env) (rns : Z -> renew_outcome)
-      (* one tick of OCSPCheckInterval *)
+| OMaintain (ks : Z -> mkind) (disabled : bool) (now : Z) (envs : Z -> env)
+      (rns : Z -> renew_outcome)
+      (* [ks = tick]: one tick of OCSPCheckInterval (updateOCSPStaples); one certificate
+         [KHandshake], the others [KSkip]: a handshake for that certificate with on-demand
+         management; one certificate [KManage]: the second half of manageOne *)
 | ORestart.                                  (* new process: empty cache, same storage *)
 
 Definition step (s : sys) (o : op) : sys * list call :=
@@ -289,8 +386,8 @@ Definition step (s : sys) (o : op) : sys * list call :=
       let cache' := if has_cert (c_id c) (cache s) then cache s
                     else cache s ++ [Entry c managed (res_cs res) now] in
       (Sys cache' (sset (c_id c) (res_store res) (stor s)), [call_of c res])
-  | OMaintain disabled now envs rns =>
-      let '(l, st, cl) := maintain disabled now envs rns (cache s) (stor s) in
+  | OMaintain ks disabled now envs rns =>
+      let '(l, st, cl) := maintain ks disabled now envs rns (cache s) (stor s) in
       (Sys l st, cl)
   | ORestart => (Sys [] (stor s), [])
   end.
@@ -314,15 +411,22 @@ Definition attach_ok (c : cert) (t : Z) (need_sig : bool) (b : blob) : bool :=
   | Some r =>
       status_eqb (r_status r) Good && (r_serial r =? c_serial c) && (r_this r <=? t) &&
       ((r_next r =? zero_time) || (t <? r_next r)) && (r_next r <=? c_expiry c) &&
-      (negb need_sig || r_sig r)
+      responder_ok t r && (negb need_sig || r_sig r)
   | None => false
   end.
 
 Definition oz_eqb (a b : option Z) : bool :=
   match a, b with Some x, Some y => x =? y | None, None => true | _, _ => false end.
+Definition orc_eqb (a b : option rcert) : bool :=
+  match a, b with
+  | Some x, Some y => (rc_na x =? rc_na y) && (rc_nb x =? rc_nb y) && Bool.eqb (rc_eku x) (rc_eku y) &&
+                      Bool.eqb (rc_issuer x) (rc_issuer y)
+  | None, None => true
+  | _, _ => false
+  end.
 Definition resp_full_eqb (a b : resp) : bool :=
   status_eqb (r_status a) (r_status b) && (r_serial a =? r_serial b) && (r_this a =? r_this b) &&
-  (r_next a =? r_next b) && oz_eqb (r_rcna a) (r_rcna b) && Bool.eqb (r_sig a) (r_sig b).
+  (r_next a =? r_next b) && orc_eqb (r_rc a) (r_rc b) && Bool.eqb (r_sig a) (r_sig b).
 (** byte strings are equal: same identity (and then, of course, the same parse) *)
 Definition blob_eqb (a b : blob) : bool :=
   (b_id a =? b_id b) &&
@@ -345,6 +449,7 @@ Definition reusable (c : cert) (now : Z) (st : option blob) : bool :=
   | None => false
   end.
 Definition corrupt (c : cert) (st : option blob) : bool :=
+  c_chain c &&
   match st with
   | Some b => match stored_parse c b with Some _ => false | None => true end
   | None => false
@@ -352,20 +457,19 @@ Definition corrupt (c : cert) (st : option blob) : bool :=
 
 (** ** Monitors for a single call *)
 
-Definition opt_signed (st : option blob) : bool :=
-  match st with
-  | Some b => match b_parse b with Some r => r_sig r | None => true end
-  | None => true
-  end.
-(** the persisted staple can be relied upon for [c]: the code verifies it (issuer in the chain),
-    or it is what certmagic persisted (verified when fetched) or garbage *)
-Definition opt_trusted (c : cert) (st : option blob) : bool := c_chain c || opt_signed st.
-
 (** soundness: the staple is the one the certificate had, or a response that may be attached now *)
 Definition call_sound (c : cert) (cs : cstate) (now : Z) (res : result) : bool :=
   match cs_staple (res_cs res) with
   | None => true
   | Some b => oblob_eqb (Some b) (cs_staple cs) || attach_ok c now true b
+  end.
+
+(** the same for what a handshake gets back: the staple the cached certificate had, or one that
+    may be attached now *)
+Definition ret_sound (c : cert) (pre_staple ret_staple : option blob) (now : Z) : bool :=
+  match ret_staple with
+  | None => true
+  | Some b => oblob_eqb (Some b) pre_staple || attach_ok c now true b
   end.
 
 (** a still-fresh persisted staple is reused without contacting the responder *)
@@ -422,7 +526,7 @@ Definition staple_kept (pre : list entry) (en : entry) : bool :=
 Definition op_time (o : op) : option Z :=
   match o with
   | OCache _ _ _ _ now => Some now
-  | OMaintain _ now _ _ => Some now
+  | OMaintain _ _ now _ _ => Some now
   | _ => None
   end.
 
@@ -471,15 +575,40 @@ Definition learned_revoked (disabled : bool) (now : Z) (e : env) (pre : sys) (ca
   | Some cl => learned_from disabled now e (sget (c_id c) (stor pre)) c cl
   end.
 
-(** S2: caching always succeeds, whatever the responder does; maintenance drops a certificate
-    only if it is managed and was reported revoked *)
+(** what entitles (S2) / obliges (S5) a pass to take a managed certificate out of the cache, by
+    the kind of visit: the tick acts on a recorded or a just learned revocation; manageOne on the
+    recorded one (it asks nobody); a handshake on what its copy says after the refresh, if there
+    was one; nobody else touches the certificate *)
+Definition may_drop (k : mkind) (disabled : bool) (now : Z) (e : env) (pre : sys)
+    (calls : list call) (en : entry) : bool :=
+  match k with
+  | KSkip => false
+  | KManage => is_revoked (cs_ocsp (en_cs en))
+  | _ => learned_revoked disabled now e pre calls en
+  end.
+Definition must_renew (k : mkind) (disabled : bool) (now : Z) (e : env) (pre : sys)
+    (calls : list call) (en : entry) : bool :=
+  match k with
+  | KSkip => false
+  | KManage => is_revoked (cs_ocsp (en_cs en))
+  | KTick => learned_revoked disabled now e pre calls en
+  | KHandshake =>
+      match find_call (c_id (en_cert en)) calls with
+      | None => is_revoked (cs_ocsp (en_cs en))
+      | Some cl => learned_from disabled now e (sget (c_id (en_cert en)) (stor pre)) (en_cert en) cl
+      end
+  end.
+
+(** S2: caching always succeeds, whatever the responder does; a pass drops a certificate only if
+    it is managed and was reported revoked *)
 Definition step_not_fatal (pre : sys) (o : op) (post : sys) (calls : list call) : bool :=
   match o with
   | OCache c _ _ _ _ => has_cert (c_id c) (cache post)
-  | OMaintain disabled now envs _ =>
+  | OMaintain ks disabled now envs _ =>
       forallb (fun en =>
-        has_cert (c_id (en_cert en)) (cache post) ||
-        (en_managed en && learned_revoked disabled now (envs (c_id (en_cert en))) pre calls en))
+        let id := c_id (en_cert en) in
+        has_cert id (cache post) ||
+        (en_managed en && may_drop (ks id) disabled now (envs id) pre calls en))
         (cache pre)
   | OTamper _ _ => forallb (fun en => has_cert (c_id (en_cert en)) (cache post)) (cache pre)
   | ORestart => true
@@ -497,7 +626,7 @@ Definition step_reuse (pre : sys) (o : op) (post : sys) (calls : list call) : bo
                              oblob_eqb (cs_staple (en_cs en)) (Some b)
         | _, _ => false
         end))
-  | OMaintain disabled now envs _ =>
+  | OMaintain _ disabled now envs _ =>
       forallb (fun en =>
         let c := en_cert en in
         negb (reusable c now (sget (c_id c) (stor pre)) && negb (e_load_err (envs (c_id c))) &&
@@ -516,7 +645,7 @@ Definition step_corrupt (pre : sys) (o : op) (post : sys) (calls : list call) : 
     negb (oblob_eqb (sget (c_id c) (stor post)) (sget (c_id c) (stor pre))) in
   match o with
   | OCache c _ disabled e _ => chk c disabled e
-  | OMaintain disabled _ envs _ =>
+  | OMaintain _ disabled _ envs _ =>
       forallb (fun en => chk (en_cert en) disabled (envs (c_id (en_cert en)))) (cache pre)
   | _ => true
   end.
@@ -524,11 +653,11 @@ Definition step_corrupt (pre : sys) (o : op) (post : sys) (calls : list call) : 
 (** S5: a managed, unexpired certificate learned to be revoked is replaced, or leaves the cache *)
 Definition step_revoked (pre : sys) (o : op) (post : sys) (calls : list call) : bool :=
   match o with
-  | OMaintain disabled now envs rns =>
+  | OMaintain ks disabled now envs rns =>
       forallb (fun en =>
         let c := en_cert en in
         negb (en_managed en && negb (c_expiry c <? now) &&
-              learned_revoked disabled now (envs (c_id c)) pre calls en) ||
+              must_renew (ks (c_id c)) disabled now (envs (c_id c)) pre calls en) ||
         match rns (c_id c) with
         | RFail => negb (has_cert (c_id c) (cache post))
         | ROk newc _ => negb (has_cert (c_id c) (cache post)) && has_cert (c_id newc) (cache post)
@@ -551,7 +680,7 @@ Definition step_persist (pre : sys) (o : op) (post : sys) : bool :=
         | Some b => (k =? c_id c) && attach_ok c now true b
         | None => true
         end) (map fst (stor post))
-  | OMaintain _ now _ _ =>
+  | OMaintain _ _ now _ _ =>
       forallb (fun k =>
         let a := sget k (stor post) in
         oblob_eqb a (sget k (stor pre)) ||
